@@ -15,6 +15,11 @@ pub enum Op {
     Dereg(u8, String, Vec<u8>),
     Chg(String, u16, bool),
     Ack(u8, u16),
+    /// acknowledgement whose request also carries a Uri-Path (irrelevant to the registry)
+    AckP(u8, u16, String),
+    /// register / deregister with raw Uri-Path segments (may be invalid UTF-8)
+    RegRaw(u8, Vec<Vec<u8>>, Vec<u8>),
+    DeregRaw(u8, Vec<Vec<u8>>, Vec<u8>),
     Limit(u8),
 }
 
@@ -25,6 +30,9 @@ impl Op {
             Op::Dereg(e, p, t) => format!("dereg {} {} {}", e, hex(p.as_bytes()), hex(t)),
             Op::Chg(p, m, c) => format!("chg {} {} {}", hex(p.as_bytes()), m, *c as u8),
             Op::Ack(e, m) => format!("ack {} {}", e, m),
+            Op::AckP(e, m, p) => format!("ackp {} {} {}", e, m, hex(p.as_bytes())),
+            Op::RegRaw(e, segs, t) => format!("regraw {} {} {}", e, segtok(segs), hex(t)),
+            Op::DeregRaw(e, segs, t) => format!("deregraw {} {} {}", e, segtok(segs), hex(t)),
             Op::Limit(l) => format!("limit {}", l),
         }
     }
@@ -37,8 +45,17 @@ impl Op {
                 Some(r.get_path())
             }
             Op::Chg(p, _, _) => Some(p.clone()),
+            Op::RegRaw(_, segs, _) | Op::DeregRaw(_, segs, _) => Some(raw_request(0, segs, &[]).get_path()),
             _ => None,
         }
+    }
+}
+
+fn segtok(segs: &[Vec<u8>]) -> String {
+    if segs.is_empty() {
+        "_".to_string()
+    } else {
+        segs.iter().map(|x| hex(x)).collect::<Vec<_>>().join(",")
     }
 }
 
@@ -51,8 +68,20 @@ fn request(ep: u8, path: &str, tok: &[u8], mid: u16) -> CoapRequest<u8> {
     r
 }
 
+fn raw_request(ep: u8, segs: &[Vec<u8>], tok: &[u8]) -> CoapRequest<u8> {
+    let mut p = Packet::new();
+    p.set_token(tok.to_vec());
+    for s in segs {
+        p.add_option(coap_lite::CoapOption::UriPath, s.clone());
+    }
+    CoapRequest::from_packet(p, ep)
+}
+
 fn apply(s: &mut Subject<u8>, op: &Op) {
     match op {
+        Op::AckP(e, m, p) => s.acknowledge(&request(*e, p, &[], *m)),
+        Op::RegRaw(e, segs, t) => s.register(&raw_request(*e, segs, t)),
+        Op::DeregRaw(e, segs, t) => s.deregister(&raw_request(*e, segs, t)),
         Op::Reg(e, p, t) => s.register(&request(*e, p, t, 0)),
         Op::Dereg(e, p, t) => s.deregister(&request(*e, p, t, 0)),
         Op::Chg(p, m, c) => s.resource_changed(p, *m, *c),
@@ -140,7 +169,24 @@ impl RefSubject {
                     r.obs.retain(|o| o.2 <= limit);
                 }
             }
-            Op::Ack(e, m) => {
+            Op::RegRaw(e, _, t) => {
+                let key = op.paths().unwrap();
+                let r = self.res.entry(key).or_default();
+                if let Some(o) = r.obs.iter_mut().find(|o| o.0 == *e) {
+                    *o = (*e, t.clone(), 0, None);
+                } else {
+                    r.obs.push((*e, t.clone(), 0, None));
+                }
+            }
+            Op::DeregRaw(e, _, t) => {
+                let key = op.paths().unwrap();
+                if let Some(r) = self.res.get_mut(&key) {
+                    if let Some(i) = r.obs.iter().position(|o| o.0 == *e && o.1 == *t) {
+                        r.obs.remove(i);
+                    }
+                }
+            }
+            Op::Ack(e, m) | Op::AckP(e, m, _) => {
                 for r in self.res.values_mut() {
                     if let Some(o) = r.obs.iter_mut().find(|o| o.0 == *e && o.3 == Some(*m)) {
                         o.2 = 0;
@@ -225,7 +271,7 @@ fn check_oracle(cx: &mut Ctx, line: &str, ops: &[Op], paths: &BTreeSet<String>, 
                 let want = r.dump(paths);
                 if outs[i] != want {
                     let prop = match o {
-                        Op::Reg(..) | Op::Dereg(..) => "C14",
+                        Op::Reg(..) | Op::Dereg(..) | Op::RegRaw(..) | Op::DeregRaw(..) => "C14",
                         _ => "C15",
                     };
                     cx.oracle_fail(prop, line, &format!("after op {} ({}): registry is {} but per-observer reference gives {}", i + 1, o.token(), outs[i], want));
@@ -421,11 +467,60 @@ pub fn run(cx: &mut Ctx) {
                     let key = Op::Reg(0, p, vec![]).paths().unwrap();
                     Op::Chg(key, m, rng.chance(2, 3))
                 }
-                8 | 9 | 10 => Op::Ack(e, m),
+                8 | 9 => Op::Ack(e, m),
+                10 => {
+                    if rng.chance(1, 2) {
+                        Op::AckP(e, m, rng.pick(&bigpaths).to_string())
+                    } else if rng.chance(1, 2) {
+                        Op::RegRaw(e, vec![b"temp".to_vec(), vec![0xff, 0xfe]], t)
+                    } else {
+                        Op::DeregRaw(e, vec![vec![0xc3], b"a".to_vec()], t)
+                    }
+                }
                 _ => Op::Limit(*rng.pick(&[0u8, 1, 2, 5, 255])),
             });
         }
         case_trace(cx, &ops);
+    }
+
+    // ---- 2b. directed: acknowledgements carrying a path (incl. the root resource), slash-prefixed
+    //          round names, registrations whose path has undecodable segments
+    {
+        let roots = ["", "a", "temp", "/temp", "a/b"];
+        for r1 in roots {
+            for r2 in roots {
+                for ackpath in roots {
+                    let key2 = Op::Reg(0, r2.to_string(), vec![]).paths().unwrap();
+                    let ops = vec![
+                        Op::Limit(1),
+                        Op::Reg(1, r1.to_string(), vec![1]),
+                        Op::Reg(1, r2.to_string(), vec![2]),
+                        Op::Chg(key2.clone(), 7, true),
+                        Op::AckP(1, 7, ackpath.to_string()),
+                        Op::Chg(key2.clone(), 8, true),
+                        Op::Chg(format!("/{}", key2), 9, true),
+                        Op::Chg(key2.clone(), 9, true),
+                        Op::Chg(key2.clone(), 9, true),
+                    ];
+                    case_trace(cx, &ops);
+                }
+            }
+        }
+        let raws: Vec<Vec<Vec<u8>>> = vec![vec![b"temp".to_vec()], vec![vec![0xff], b"temp".to_vec()], vec![b"temp".to_vec(), vec![0xc3, 0x28]], vec![vec![0x80]], vec![]];
+        for a in &raws {
+            for b in &raws {
+                let ops = vec![Op::Reg(1, "".into(), vec![9]), Op::RegRaw(1, a.clone(), vec![1]), Op::RegRaw(2, b.clone(), vec![2]), Op::DeregRaw(1, b.clone(), vec![1]), Op::DeregRaw(2, a.clone(), vec![2]), Op::DeregRaw(1, a.clone(), vec![1])];
+                case_trace(cx, &ops);
+            }
+        }
+        // same message id on consecutive rounds
+        for lim in [0u8, 1, 2] {
+            let mut ops = vec![Op::Limit(lim), Op::Reg(1, "s".into(), vec![1])];
+            for _ in 0..5 {
+                ops.push(Op::Chg("s".into(), 42, true));
+            }
+            case_trace(cx, &ops);
+        }
     }
 
     // ---- 3. directed long histories at limits 10, 254, 255 (and 0, 1)
